@@ -244,7 +244,7 @@ DIRECTED = [
 ]
 
 
-HALF_BUILT = ["a.Select(f)", "a.Select(f).Count()", "g(a.Where(lambda x: x.ok()).First())", "a.m(b)", "ds.Select(lambda e: e.jets.Select(lambda j: j.pt()).Max())", "a.Where(filter=f).Select(g)", "Select(a, f).Count()"]
+HALF_BUILT = ["a.Select(f)", "a.Select(f).Count()", "g(a.Where(lambda x: x.ok()).First())", "a.m(b)", "ds.Select(lambda e: e.jets.Select(lambda j: j.pt()).Max())", "a.Where(filter=f).Select(g)", "Select(a, f).Count()", "a.First().m() + g()", "a.jets().Select(lambda j: j.pt()).Count()"]
 
 
 def half_built(ctx):
